@@ -376,11 +376,42 @@ Proof.
     destruct (has_comments m); apply ov_ok. }
   destruct (d =? CB_composite); [|apply ov_ok].
   apply ov_bind; [apply ov_tr_main|]. intros r. destruct r as [v|t|l|c items]; try apply ov_vfail.
-  apply ov_bind; [|intros; apply ov_ok].
-  destruct (assoc s_type items) as [[[| | | |ty| |]|t|l|c2 i2]|]; try apply ov_vfail.
-  destruct (str_eqb ty s_metadata); [|apply ov_ok].
-  destruct cs as [|[t|d2 mdkids m2|v2] cs']; try apply ov_vfail.
-  apply ov_add_metadata_comments.
+  assert (Hdict : forall cm1,
+            only_visit (do cm2 <- match assoc s_type items with
+                                  | Some (TVal (VStr ty)) =>
+                                      if str_eqb ty s_metadata then
+                                        match cs with
+                                        | GNode _ mdkids _ :: _ => add_metadata_comments items cm1 mdkids
+                                        | _ => vfail
+                                        end
+                                      else Ok cm1
+                                  | _ => vfail
+                                  end;
+                        Ok (GVal (TDict c ((match c with DCI _ | DDef _ => ci_set | DPlain => od_set end)
+                                             s_comments (TVal (VDict DPlain cm2)) items))))).
+  { intros cm1. apply ov_bind; [|intros; apply ov_ok].
+    destruct (assoc s_type items) as [[[| | | |ty| |]|t|l|c2 i2]|]; try apply ov_vfail.
+    destruct (str_eqb ty s_metadata); [|apply ov_ok].
+    destruct cs as [|[t|d2 mdkids m2|v2] cs']; try apply ov_vfail.
+    apply ov_add_metadata_comments. }
+  assert (Hother : only_visit (if has_comments m then vfail
+                               else match assoc s_type items with
+                                    | Some (TVal (VStr ty)) =>
+                                        if str_eqb ty s_metadata then
+                                          match cs with
+                                          | GNode _ (_ :: _ :: _ :: _) _ :: _ => vfail
+                                          | GNode _ _ _ :: _ => Ok (GVal (TDict c items))
+                                          | _ => vfail
+                                          end
+                                        else Ok (GVal (TDict c items))
+                                    | _ => vfail
+                                    end)).
+  { destruct (has_comments m); [apply ov_vfail|].
+    destruct (assoc s_type items) as [[[| | | |ty| |]|t|l|c2 i2]|]; try apply ov_vfail.
+    destruct (str_eqb ty s_metadata); [|apply ov_ok].
+    destruct cs as [|[t|d2 [|k1 [|k2 [|k3 ks]]] m2|v2] cs']; try apply ov_vfail; apply ov_ok. }
+  destruct (match c with DPlain => assoc s_comments items | _ => ci_get s_comments items end)
+    as [[[| | | | | |dc di]|et|el|ec ei]|]; first [apply Hdict | exact Hother].
 Qed.
 
 Theorem ov_ctr ip : forall t, only_visit (ctr ip t).
